@@ -85,9 +85,29 @@ var seenIDs = map[string]string{}
 
 // runCase returns the first violation and, separately, the known-class note
 // about the misspelled content-type member (checked without masking the rest).
+// stability: the document stored for an earlier event must not change when a
+// later event is formatted by another Process call.
+var prevEvent *el.Event
+var prevKey string
+var prevBytes []byte
+
+func stable() string {
+	if prevEvent == nil {
+		return ""
+	}
+	b, ok := prevEvent.Format(prevKey)
+	if !ok || !bytes.Equal(b, prevBytes) {
+		return fmt.Sprintf("the document stored for the previously formatted event changed when another event was formatted: was %q, is %q", prevBytes, b)
+	}
+	return ""
+}
+
 func runCase(c caseSpec) (string, string) {
 	note := ""
 	v := runCaseInner(c, &note)
+	if v == "" {
+		v = stable()
+	}
 	return v, note
 }
 
@@ -255,6 +275,10 @@ func runCaseInner(c caseSpec, note *string) string {
 	} else if _, has := doc["dataschema"]; has {
 		return "dataschema present although no schema is configured"
 	}
+	if v := stable(); v != "" {
+		return v
+	}
+	prevEvent, prevKey, prevBytes = e, wantKey, append([]byte(nil), b...)
 	_, hasSer := doc["serialized"]
 	_, hasMac := doc["serialized_hmac"]
 	if !mustSign {
@@ -296,9 +320,7 @@ func runCaseInner(c caseSpec, note *string) string {
 	}
 	// byte-exact against an unsigned twin when the id is fixed
 	if wantID != "" {
-		twin := *f
-		twin.Signer = nil
-		twin.Predicate = nil
+		twin := &ce.FormatterFilter{Source: f.Source, Schema: f.Schema, Format: f.Format, SignEventTypes: f.SignEventTypes}
 		e2 := &el.Event{Type: typ, CreatedAt: created, Formatted: map[string][]byte{}, Payload: payload}
 		if _, err := twin.Process(context.Background(), e2); err == nil {
 			if tb, _ := e2.Format(wantKey); !bytes.Equal(tb, raw) {
@@ -352,7 +374,7 @@ func main() {
 			res.Samples = append(res.Samples, cases[job.Scn*chunk].String())
 			return res
 		},
-		Rule: "the full product payload {plain, ID, Data, ID+Data, ID()==\"\"} x Format {unset, json, text, invalid} x Source {set, nil, empty} x Schema {nil, set, empty} x Signer {nil, succeeding, failing} x event type {listed, not listed for signing} x Predicate {nil, true, false, error} = 4320 cases on the real FormatterFilter; the emitted bytes are parsed back: required members, specversion 1.0, time, data (payload or Data()), content type, schema, indentation, fresh unique ids; signed iff signer and listed, serialized base64url-decodes to exactly the bytes the signer saw and to the unsigned document (byte-identical to an unsigned twin run when the id is fixed), serialized_hmac is the signer's result; failing signer => not forwarded; invalid configurations and empty IDs rejected.",
+		Rule: "the full product payload {plain, ID, Data, ID+Data, ID()==\"\"} x Format {unset, json, text, invalid} x Source {set, nil, empty} x Schema {nil, set, empty} x Signer {nil, succeeding, failing} x event type {listed, not listed for signing} x Predicate {nil, true, false, error} = 4320 cases on the real FormatterFilter; the emitted bytes are parsed back: required members, specversion 1.0, time, data (payload or Data()), content type, schema, indentation, fresh unique ids; signed iff signer and listed, serialized base64url-decodes to exactly the bytes the signer saw and to the unsigned document (byte-identical to an unsigned twin run when the id is fixed), serialized_hmac is the signer's result; failing signer => not forwarded; the document stored for the previously formatted event stays unchanged; invalid configurations and empty IDs rejected.",
 		Assumptions: []string{"uniqueness of generated ids is checked across the cases of one worker process only (probabilistic property of a 10-character random id)"},
 		QuickBudget: 120 * time.Second, ThoroughBudget: 10 * time.Minute,
 	})
